@@ -204,7 +204,7 @@ def scenario(rnd):
         e = mutate(rnd, e)
     if rnd.random() < 0.3:      # a service reference
         w2 = sig(left)
-        names = rnd.sample(["a", "b", "get", "put", "zz"], rnd.randrange(1, 4))
+        names = rnd.sample(["a", "b", "get", "put", "zz", "get_pspbiy"], rnd.randrange(1, 4))
         wm = tuple((nm, w if k == 0 else w2) for k, nm in enumerate(names))
         w = ("svc", wm)
         em = [(nm, rename(t, mp)) for nm, t in wm]
@@ -216,6 +216,9 @@ def scenario(rnd):
         elif c < 0.8:
             k = rnd.randrange(len(em))
             em[k] = (em[k][0], mutate(rnd, em[k][1]))
+        if "get_pspbiy" in names and rnd.random() < 0.5:
+            # methods are identified by NAME: `put_sqsptw` has the same 32-bit hash as `get_pspbiy` and is another method
+            em = [("put_sqsptw" if nm == "get_pspbiy" else nm, t) for nm, t in em]
         e = ("svc", tuple(em))
     return env, w, e
 
@@ -311,11 +314,33 @@ def run(pid, build_replay):
                 break
         if not big_fail and rss_kb > 400 * 1024:      # -1 = not measured (no /usr/bin/time): the criterion is then not applied
             big_fail = ("peak memory below 400 MiB for 21 messages of at most 20 KiB", f"{rss_kb} KiB", big[0])
+    # deeply nested VALUES (untyped `type T = opt T`, native List) on threads with little stack: the recursion guard looks at
+    # the stack that is left, so decoding must return whatever the stack size -- a stack overflow kills the whole process,
+    # hence a process of its own
+    dv_cmds = [f"dval {kind} {depth} {kb}" for kind in ("opt", "list") for depth in (300, 100000) for kb in (96, 128, 192, 256, 512)]
+    pdv = subprocess.run([exe], input="\n".join(dv_cmds) + "\n", capture_output=True, text=True, timeout=600)
+    dv_outs = [l.strip() for l in pdv.stdout.splitlines()]
+    dv_fail = None
+    if pdv.returncode != 0 or len(dv_outs) != len(dv_cmds):
+        dv_fail = (dv_cmds[min(len(dv_outs), len(dv_cmds) - 1)], f"the process died (exit status {pdv.returncode}) after {len(dv_outs)} of {len(dv_cmds)} answers: {pdv.stderr.strip()[-160:]}")
+    else:
+        for c, o in zip(dv_cmds, dv_outs):
+            if o not in ("ok", "err"):
+                dv_fail = (c, o)
+                break
     p = subprocess.run([exe], input="\n".join(cmds) + "\n", capture_output=True, text=True, timeout=1800)
     outs = [l.strip() for l in p.stdout.splitlines()]
     if len(outs) != len(cmds):
         return {"undecided": [f"bounded stand-in: replay produced {len(outs)} lines for {len(cmds)} messages"], "failures": []}
     failures = []
+    if dv_fail:
+        cmd, got = dv_fail
+        failures.append({
+            "obligation": "bounded-standin::decode::deeply nested values return (no stack overflow) whatever stack is left", "unit": "bounded-standin",
+            "item": "decoder (recursion guard)", "fn": "decode", "kind": "bounded-standin", "file": "rust/candid/src/utils.rs", "line": 0,
+            "source_text": "", "clause": None, "verifier_message": f"{cmd}: expected ok or err, got {got}",
+            "witness": {"confirmed": True, "function": "candid::IDLArgs::from_bytes / Decode!", "input": cmd, "expected": "ok or err (a value or an error)",
+                        "got": got, "replay_cmd": f"echo '{cmd}' | {exe}"}})
     if big_fail:
         exp, got, (what, m) = big_fail
         cmd = f"rds {m.hex()} X=nat o(nat)"
@@ -351,6 +376,6 @@ def run(pid, build_replay):
                                                 "type_env.rs replace_empty / is_empty (must leave inhabited types alone)"],
                                   "bound": f"{len([1 for m in meta if m[0] == 'sub'])} seeded messages carrying one function / service reference over environments of 2..4 "
                                            f"definitions ({npos} of them subtypes), each also with up to 6 single-point header corruptions "
-                                           f"({len([1 for m in meta if m[0] == 'hdr'])} ill-formed messages); {len(big)} headers whose length fields promise 2^40 / 2^62 items or one table entry above the limit (error demanded, peak memory of that process {rss_kb} KiB, bound 400 MiB); environments with a cycle through mandatory record fields left out",
+                                           f"({len([1 for m in meta if m[0] == 'hdr'])} ill-formed messages); {len(dv_cmds)} deeply nested values (opt chains untyped, lists natively, depth 300 and 100000) on threads with 96..512 KiB of stack, in a process of their own (it must survive); {len(big)} headers whose length fields promise 2^40 / 2^62 items or one table entry above the limit (error demanded, peak memory of that process {rss_kb} KiB, bound 400 MiB); environments with a cycle through mandatory record fields left out",
                                   "vectors": len(cmds), "disagreements": len(failures), "labelled": "bounded, NOT proved",
                                   "wall_s": round(time.time() - t0, 1)}]}
